@@ -2,6 +2,7 @@ import Victron.Model.Proto
 import Victron.Proofs.Frame
 import Victron.Proofs.Scan
 import Victron.Proofs.Loop
+import Victron.Proofs.Stream
 /-
   C04 — Resynchronisation and bounded retry.
   Model: `Vd.receiveResponse` (frame scanner), `Vd.attempt` / `Vd.veCommandGetL` (retry loop), `Vd.flushReceiver`.
@@ -81,6 +82,45 @@ theorem idle_flush (σ : Vd) (buf' : Bytes) (queue' : List Bytes) (idles : List 
   unfold Vd.veCommandGetL
   rw [hvc]
 
+/-- **Success against a whole device stream** (fault-free port). The bytes pending at the call together with
+    what the device sends in answer to each command split as: `ws.length ≤ 7` *wasted units* — each either any
+    amount of text noise and asynchronous frames followed by one complete frame the call cannot use (invalid,
+    or a valid response for another register: `Junk.ok_other_register`), or a silence (nothing, noise, async
+    frames or the beginning of a frame, with no complete frame) — then skippable material, the valid response
+    for `addr`, and anything. Before an attempt that follows ≥ 100 ms of idleness whatever was pending is
+    dropped (`Feeds`), an outdated response for `addr` included. The read returns the awaited response's
+    payload, having written exactly one frame per wasted unit plus one, and leaves what follows pending. -/
+theorem stream_success (ws : List (Bool × Waste)) (i : Bool) (post idles : List Bool) (σ : Vd) (addr : Nat) (haddr : addr < 65536)
+    (payload : Bytes) (hpl : IsBytes payload) (hid : idles8 idles = ws.map (·.1) ++ i :: post)
+    (hws : ∀ w ∈ ws, w.2.Ok addr)
+    (segs : List (Bytes × Bytes)) (noise rest : Bytes)
+    (hsegs : ∀ s ∈ segs, 58 ∉ s.1 ∧ 10 ∉ s.2) (hnoise : 58 ∉ noise) (hc : σ.port.Clean)
+    (hfeed : Feeds σ.port.reply σ.port.nW σ.pending ws i
+      ((segs.map asyncSeg).flatten ++ noise ++ frameOf (getResponseBody addr 0 payload) ++ rest)) :
+    ∃ σ', σ.veCommandGet idles addr = (σ', .ok payload) ∧
+      σ'.port.nW = σ.port.nW + ws.length + 1 ∧ σ'.pending = rest := by
+  unfold Vd.veCommandGet
+  rw [hid]
+  exact Vd.veCommandGetL_streamF ws i σ addr haddr 0 (by omega) payload hpl hws segs noise rest hsegs hnoise hc hfeed post
+
+/-- the premise `hid` only says that there are at most seven wasted units -/
+theorem stream_success_le_seven (ws : List (Bool × Waste)) (i : Bool) (post idles : List Bool)
+    (hid : idles8 idles = ws.map (·.1) ++ i :: post) : ws.length ≤ 7 := by
+  have := congrArg List.length hid
+  rw [idles8_length] at this
+  simp at this; omega
+
+/-- **Giving up against a stream.** Eight wasted units in a row use up the eight attempts: the call fails with
+    exactly eight frames written — even if the valid response follows right behind them. -/
+theorem stream_give_up (ws : List (Bool × Waste)) (idles : List Bool) (σ : Vd) (addr : Nat)
+    (hid : idles8 idles = ws.map (·.1)) (hws : ∀ w ∈ ws, w.2.Ok addr)
+    (fin : Bytes) (hc : σ.port.Clean) (hfeed : Feeds σ.port.reply σ.port.nW σ.pending ws false fin) :
+    ∃ σ8, σ.veCommandGet idles addr = (σ8, .err .other) ∧ σ8.port.nW = σ.port.nW + 8 ∧
+      σ8.pending ++ σ8.port.reply σ8.port.nW = fin := by
+  obtain ⟨σk, h, hp, _⟩ := Vd.afterRetries_stream ws false σ addr hws fin hc hfeed
+  obtain ⟨h1, h2⟩ := give_up idles σ σk addr (by rw [hid]; exact h)
+  exact ⟨σk, h1, h2, by simpa using hp⟩
+
 /-- non-vacuity: silence, then a frame for another register, then the good frame behind noise and an async
     frame — accepted at attempt 3; and eight silent attempts — given up with eight frames written. -/
 def good : Bytes := frameOf (getResponseBody 0x0100 0 [7])
@@ -91,5 +131,22 @@ example : (Vd.veCommandGet { port := script } [true] 0x0100).1.port.nW = 3 := by
 example : (Vd.veCommandGet { port := {} } [true] 0x0100).2 = .err .other ∧
     (Vd.veCommandGet { port := {} } [true] 0x0100).1.port.nW = 8 := by decide
 example : Vd.afterRetries [true, false] { port := script } 0x0100 ≠ none := by decide
+
+/-- non-vacuity of `stream_success`: the device answers the first command with a valid response for another
+    register and the second with text noise, an async frame and the awaited response -/
+def script2 : Port := { replies := [[frameOf (getResponseBody 0x0101 0 [9])],
+  ["\r\nV\t12".toList.map Char.toNat, frameOf (65 :: hexBytes [1, 2]), good]] }
+def junk1 : Junk := { body := getResponseBody 0x0101 0 [9] }
+example : junk1.Ok 0x0100 := Junk.ok_other_register 0x0100 0x0101 (by decide) (by decide) 0 (by decide) [9] (by decide) [] [] (by simp) (by simp)
+example : Feeds script2.reply 0 [] [(false, .frame junk1)] false
+    (([(("\r\nV\t12".toList.map Char.toNat), hexBytes [1, 2])].map asyncSeg).flatten ++ [] ++ frameOf (getResponseBody 0x0100 0 [7]) ++ []) :=
+  ⟨[], by decide, trivial, by unfold Feeds; decide⟩
+/-- the same behind a silent first attempt (`script` above) -/
+example : Feeds script.reply 0 [] [(true, .silence [] []), (false, .frame junk1)] false
+    (([(("\r\nV\t12".toList.map Char.toNat), hexBytes [1, 2])].map asyncSeg).flatten ++ [] ++ frameOf (getResponseBody 0x0100 0 [7]) ++ []) :=
+  ⟨[], by decide, rfl, [], by decide, trivial, by unfold Feeds; decide⟩
+example : Waste.Ok 0x0100 (.silence [] []) := ⟨by simp, Or.inl (by simp)⟩
+example : (Vd.veCommandGet { port := script2 } [] 0x0100).2 = .ok [7] ∧
+    (Vd.veCommandGet { port := script2 } [] 0x0100).1.port.nW = 2 := by decide
 
 end Victron.C04
